@@ -1,2 +1,13 @@
 pub(crate) mod method;
 mod suggestion;
+
+/// Verification hook (feature `verif-hooks`): the dictionary tables searched for a typed word
+/// starting with `letter`.
+#[cfg(feature = "verif-hooks")]
+pub(crate) fn verif_tables_for(letter: &str) -> Vec<String> {
+    suggestion::PhoneticSuggestion::default()
+        .verif_tables_for(letter)
+        .into_iter()
+        .map(str::to_owned)
+        .collect()
+}
